@@ -112,8 +112,10 @@ fn exec<P: Px>(c: &RCase, stats: &mut Stats, viols: &mut Vec<Viol>) {
     }
     let sbits = P::bits_of(&src);
     let nc = P::NC;
-    for ext in ALL_EXT {
-        let out = match resize_vec::<P>(&src, c.sw, c.sh, c.dw, c.dh, &opts, ext) {
+    // each case through the specialised row stepping of TypedImageRef and through the default one (TypedImage source)
+    for (ext, typed_src) in [(Ext::None, false), (Ext::Sse4, false), (Ext::Avx2, false), (Ext::Avx2, true)] {
+        let res = if typed_src { resize_vec_typed_src::<P>(&src, c.sw, c.sh, c.dw, c.dh, &opts, ext) } else { resize_vec::<P>(&src, c.sw, c.sh, c.dw, c.dh, &opts, ext) };
+        let out = match res {
             Ok(o) => o,
             Err(e) => {
                 viols.push(Viol::new("unexpected_error", format!("{:?} for a valid crop {:?}", e, c.crop)));
@@ -143,7 +145,7 @@ fn exec<P: Px>(c: &RCase, stats: &mut Stats, viols: &mut Vec<Viol>) {
                 }
                 if !ok {
                     viols.push(
-                        Viol::new("wrong_source_pixel", format!("{}: dst ({},{}) = {:?}, expected source pixel ({},{}) = {:?}", ext.name(), x, y, out[y * dw + x], ex, ey, src[ey * sw + ex]))
+                        Viol::new("wrong_source_pixel", format!("{}{}: dst ({},{}) = {:?}, expected source pixel ({},{}) = {:?}", ext.name(), if typed_src { " TypedImage source" } else { "" }, x, y, out[y * dw + x], ex, ey, src[ey * sw + ex]))
                             .sig(json!({"pt": P::NAME, "ext": ext.name()})),
                     );
                     break 'px;
